@@ -431,7 +431,64 @@ pub fn main(args: &[String]) {
     let mut rng = Rng::new(seed ^ 0x10);
     all_mem_impls!(random_all, &mut rng, nhist, len, &mut tr);
     foreign_indices(&mut tr);
+    adversarial_terms(&mut tr);
     println!("events {}", tr.finish());
+}
+
+/// A safe but inconsistent `Term`: a literal whose lexical form is "fresh<n>" for its first `switch` reads and "k1" afterwards.
+/// Nothing obliges a `Term` implementation to answer the same twice; whatever the store makes of it, it must stay self-contained.
+#[derive(Debug)]
+struct Ticket {
+    reads: std::cell::Cell<usize>,
+    switch: usize,
+}
+impl sophia_api::term::Term for Ticket {
+    type BorrowTerm<'x> = &'x Self;
+    fn kind(&self) -> sophia_api::term::TermKind {
+        sophia_api::term::TermKind::Literal
+    }
+    fn borrow_term(&self) -> Self::BorrowTerm<'_> {
+        self
+    }
+    fn lexical_form(&self) -> Option<sophia_api::MownStr<'_>> {
+        let n = self.reads.get();
+        self.reads.set(n + 1);
+        Some(if n < self.switch { sophia_api::MownStr::from(format!("fresh{n}")) } else { sophia_api::MownStr::from("k1") })
+    }
+    fn datatype(&self) -> Option<sophia_api::term::IriRef<sophia_api::MownStr<'_>>> {
+        Some(sophia_api::term::IriRef::new_unchecked(sophia_api::MownStr::from("http://www.w3.org/2001/XMLSchema#string")))
+    }
+    fn language_tag(&self) -> Option<sophia_api::term::LanguageTag<sophia_api::MownStr<'_>>> {
+        None
+    }
+}
+fn adversarial_terms(tr: &mut Trace) {
+    use sophia_inmem::index::{SimpleTermIndex, TermIndex};
+    fn run<I: Index + Default>(name: &str, tr: &mut Trace) {
+        for switch in 0..10usize {
+            let mut idx = SimpleTermIndex::<I>::default();
+            let k1 = lit_dt("k1", &format!("{XSD}string"));
+            let _ = idx.ensure_index(&k1);
+            let _ = idx.ensure_index(&iri("http://ex/other"));
+            let r = guarded(|| {
+                let t = Ticket { reads: std::cell::Cell::new(0), switch };
+                let _ = idx.ensure_index(&t);
+                // make the allocator hand the freed blocks out again before reading back
+                let junk: Vec<String> = (0..64).map(|k| format!("k{k}ZZZZZZZZ")).collect();
+                let audit = MemStore::audit(&idx);
+                let content = if audit { MemStore::content(&idx) } else { vec![] };
+                drop(junk);
+                (audit, content)
+            });
+            let allowed: Vec<Value> = std::iter::once(term_json(&k1)).chain(std::iter::once(term_json(&iri("http://ex/other")))).chain((0..switch.max(1) + 12).map(|n| term_json(&lit_dt(&format!("fresh{n}"), &format!("{XSD}string"))))).collect();
+            match r {
+                Ok((audit, content)) => tr.emit(json!({"ev":"Adversary","impl":name,"switch":switch,"audit":audit,"content":content,"allowed":allowed,"obs":[]})),
+                Err(m) => tr.emit(json!({"ev":"Adversary","impl":name,"switch":switch,"audit":true,"content":[],"allowed":allowed,"panic":m,"obs":[]})),
+            }
+        }
+    }
+    run::<u16>("SimpleTermIndex<u16>", tr);
+    run::<u32>("SimpleTermIndex<u32>", tr);
 }
 
 /// `get_term` / `get_graph_name` with an index this term index never issued (one past the end, far past the end, an index issued by a
